@@ -3,6 +3,7 @@ import RsModel.Props.C01
 import RsModel.Lemmas.Replay
 import RsModel.Lemmas.PosTree
 import RsModel.Lemmas.ReplayNames
+import RsModel.Lemmas.ReplayLines
 /-!
 # C10 — CachedSource is transparent for every call history
 -/
@@ -153,6 +154,40 @@ theorem c10_replay_names (id : Nat) (inner : Src) (σ : Store)
   rw [hfirst]
   simp only [hm]
   have := replay_names (inner.stream ⟨true, false⟩ σ).1 hpos htok htl hMN (by rw [htext]; exact ha) (by rw [htext]; exact hl) hsmall hdecl sm hm
+  rw [htext] at this
+  simpa [streamSM] using this
+
+
+/-- **the cache filled by streaming replays the same attribution, columns = false**: for every generated line that carries text,
+the first mapped chunk of the replay points to the same source index and original line as the first mapped chunk of the first
+stream on that line (file and line granularity, as the property demands for columns=false) -/
+theorem c10_replay_lines (id : Nat) (inner : Src) (σ : Store)
+    (hw : inner.WF) (hp : inner.PosHyp false) (hn : inner.ids.Nodup) (hs : StoreHyp false σ inner.cachedNodes)
+    (hsmall : ∀ m ∈ chunkMs (inner.stream ⟨false, false⟩ σ).1.evs, ∀ o, m.orig = some o → o.src < U31 ∧ o.line < U31)
+    (hcold : σ.get? (id, ⟨false, false⟩) = none) (hfresh : id ∉ inner.ids)
+    (sm : SMap) (hm : mapOfEvs false (inner.stream ⟨false, false⟩ σ).1.evs = some sm)
+    (L : Nat) (h1 : 1 ≤ L) (hL : L ≤ (splitLines inner.src).length) :
+    let first := (Src.cached id inner).stream ⟨false, false⟩ σ
+    let second := (Src.cached id inner).stream ⟨false, false⟩ first.2
+    lookupLines (chunkMs second.1.evs) L = lookupLines (chunkMs first.1.evs) L := by
+  intro first second
+  have hpos := Src.stream_posOK inner false σ hw hp hn hs
+  have htl := Src.stream_tl inner false σ
+  have htext := Src.stream_text inner false σ hw
+  have hfirst : first = ((inner.stream ⟨false, false⟩ σ).1,
+      (inner.stream ⟨false, false⟩ σ).2.insertNew (id, ⟨false, false⟩) (mapOfEvs false (inner.stream ⟨false, false⟩ σ).1.evs)) := by
+    show (Src.cached id inner).stream ⟨false, false⟩ σ = _
+    simp only [Src.stream, hcold]
+  have hstill : (inner.stream ⟨false, false⟩ σ).2.get? (id, ⟨false, false⟩) = none := by
+    rw [Src.stream_store_other inner _ σ (id, ⟨false, false⟩) hfresh]; exact hcold
+  have hget : first.2.get? (id, ⟨false, false⟩) = some (mapOfEvs false (inner.stream ⟨false, false⟩ σ).1.evs) := by
+    rw [hfirst]; exact get_insertNew_self _ _ _ hstill
+  have hsecond : second = (Src.cached id inner).stream ⟨false, false⟩ first.2 := rfl
+  rw [hsecond]
+  simp only [Src.stream, hget]
+  rw [hfirst]
+  simp only [hm]
+  have := replay_lines (inner.stream ⟨false, false⟩ σ).1 hpos htl hsmall sm hm L h1 (by rw [htext]; exact hL)
   rw [htext] at this
   simpa [streamSM] using this
 
